@@ -249,6 +249,10 @@ PLAN["C01"] = {
         _c01_gen("gen_castle_white_complete", 2, 14, ('quick', 'thorough'), 3600, 8, 40),
         _c01_gen("gen_castle_black_sound", 2, 14, ('quick', 'thorough'), 3600, 8, 40),
         _c01_gen("gen_castle_black_complete", 2, 14, ('quick', 'thorough'), 3600, 8, 40),
+        _c01_gen("gen_castle_n_white_sound", 2, 14, ("quick", "thorough"), 3600, 8, 40),
+        _c01_gen("gen_castle_n_white_complete", 2, 14, ("thorough",), 3600, 8, 40),
+        _c01_gen("gen_castle_n_black_sound", 2, 14, ("quick", "thorough"), 3600, 8, 40),
+        _c01_gen("gen_castle_n_black_complete", 2, 14, ("thorough",), 3600, 8, 40),
         _c01_gen("probe_gen_kp_kp_ep_black_complete_fast", 1, 8, ("probe",), 3600, 14, 12),
         Inst("c01::reach_witness", sub="vacuity", unwind=10, nomem=True, timeout=1800, expect="fail",
              unwindset=(("expand_moves", 10), ("compute_pawn_moves", 6), ("compute_knight_moves", 3), ("compute_bishop_moves", 3), ("compute_rook_moves", 3),
@@ -267,7 +271,7 @@ PLAN["C02"] = {
               "rights (consistent with homes), en-passant target (behind a just-double-stepped pawn), clocks < 2^32, symbolic "
               "move coordinates restricted to pseudo-legal moves of a legal position; sequences by induction on the "
               "legal-position invariant (asserted on the successor of every legal move)",
-    "outside": ["clocks >= 2^32", "State::by_performing_moves (runs compute_legal_moves; its three-way match is read, not decided)",
+    "outside": ["clocks >= 2^32", "State::by_performing_moves on the *real* legal move list (the resolver's three-way match is decided on arbitrary lists of <= 2 moves instead)",
                 "moves that are not pseudo-legal in the position"],
     "trusted": ["rustc / kani-compiler / CBMC", "reference rules in harness/common/rules.rs"],
     "assumptions": ["position is a legal position (invariant of DESIGN §4.2)", "move is pseudo-legal per the reference rules"],
@@ -278,6 +282,10 @@ PLAN["C02"] = {
         Inst("c02::ep_without_target_is_refused", sub="C02.a", timeout=600, functions=("State::by_performing_move",), bounds="any position without ep target"),
         Inst("c02::coordinate_query", sub="C02.c", timeout=600, functions=("MoveQuery::by_moving_from_to", "MoveQuery::set_promotion", "MoveQuery::test"),
              bounds="any position, any pseudo-legal move, any coordinate triple"),
+        Inst("c02::resolver_applies_exactly_the_selected_move", sub="C02.c", unwind=9, timeout=3600, mem_gb=20,
+             functions=("State::by_performing_moves", "MoveSet::filter", "MoveQuery::test", "State::by_performing_move"),
+             stubs=("MoveGenerator::compute_legal_moves -> an arbitrary list of <= 2 pseudo-legal moves of the position with their real successors (over-approximates every legal-move list of that size)",),
+             bounds="any legal position, any coordinate triple, any list of <= 2 candidate moves"),
         Inst("c02::reach_witness", sub="vacuity", timeout=600, expect="fail"),
     ],
 }
@@ -303,7 +311,7 @@ def _eval_inst(name, sub, men, tiers, timeout, mem, stubs, mod="c05"):
 PLAN["C05"] = {
     "feature": "c05",
     "exhaustive": False,
-    "bounds": "mate scores: ply <= 10^6; evaluator: 3- and 4-man families in which the side to move is a lone king (KRk, KQk, KPk, KBNk, KBBk, KRRk, KQRk; both "
+    "bounds": "mate scores: ply <= 10^6; evaluator: 3- and 4-man families in which the side to move is a lone king (KRk, KQk, KPk, KNNk, KBNk, KBBk, KRRk, KQRk; both "
               "colours), all squares, both perspectives, ply <= 10^6; floats bit-precise",
     "outside": ["more than 4 men; positions where the side to move has more than its king (the no-legal-move oracle enumerates the eight king steps)",
                 "ply >= 2^31 (the `as i32` cast wraps)"],
@@ -317,6 +325,7 @@ PLAN["C05"] = {
         _eval_inst("kqk_white_to_move", "C05.b", 1, ("thorough",), 3600, 10, LEGAL_STUB),
         _eval_inst("kpk_black_to_move", "C05.b", 1, ("quick", "thorough"), 3600, 10, LEGAL_STUB),
         _eval_inst("kqk_stalemate_is_zero", "C05.b", 1, ("quick", "thorough"), 3600, 10, LEGAL_STUB),
+        _eval_inst("knnk_black_to_move", "C05.b", 2, ("quick", "thorough"), 7200, 10, LEGAL_STUB),
         _eval_inst("kbnk_black_to_move", "C05.b", 2, ("thorough",), 7200, 14, LEGAL_STUB),
         _eval_inst("krrk_white_to_move", "C05.b", 2, ("thorough",), 7200, 14, LEGAL_STUB),
         _eval_inst("kbbk_black_to_move", "C05.b", 2, ("thorough",), 7200, 14, LEGAL_STUB),
